@@ -28,6 +28,7 @@ from functools import partial
 
 from pymbolic.mapper import IdentityMapper
 from pymbolic.primitives import Call, CallWithKwargs, Lookup, Subscript, Variable
+from pytools import UniqueNameGenerator
 from pytools.py_codegen import (  # It's the same code. So sue me.
     PythonCodeGenerator as FortranEmitterBase)
 
@@ -66,13 +67,22 @@ wrap_line = partial(wrap_line_base, pad_func=pad_fortran)
 
 # {{{ name manager
 
+class _CaseInsensitiveUniqueNameGenerator(UniqueNameGenerator):
+    """A :class:`pytools.UniqueNameGenerator` for Fortran, where names that
+    differ only in letter case denote the same entity and therefore conflict.
+    """
+
+    def is_name_conflicting(self, name):
+        name = name.lower()
+        return any(name == existing.lower() for existing in self.existing_names)
+
+
 class FortranNameManager:
     """Maps names that appear in intermediate code to Fortran identifiers.
     """
 
     def __init__(self):
-        from pytools import UniqueNameGenerator
-        self.name_generator = UniqueNameGenerator()
+        self.name_generator = _CaseInsensitiveUniqueNameGenerator()
         self.local_map = KeyToUniqueNameMap(name_generator=self.name_generator)
         self.global_map = KeyToUniqueNameMap(start={
                 "<t>": "dagrt_t", "<dt>": "dagrt_dt"},
